@@ -119,6 +119,14 @@ if len(keeps) > 1:
     raise SystemExit('fail-closed: completing responses treat early parts inconsistently')
 keeps_early = bool(keeps and keeps.pop())
 
+# ---- lock discipline of the consumer: every access of call_operation / on_operation_invoked_report to the buffer of
+#      recent parts and to the table of pending transactions happens while the calling thread holds _transactions_lock
+#      (that is what makes one model step = one critical section)
+n_acc, unlocked_acc, probe_ob = c09_lib.lock_discipline_probe(msgs)
+if probe_ob['errors'] or n_acc < 10:
+    raise SystemExit(f'fail-closed: lock discipline probe did not run: {probe_ob["errors"]}, {n_acc} accesses')
+state_under_lock = not unlocked_acc
+
 
 # ---- the transaction id is incremented and read under the lock
 def txid_locked() -> bool:
@@ -157,6 +165,8 @@ Definition consumer_completing : list istate := {lst(completing)}.
 Definition consumer_nonfinal : list istate := {lst(nonfinal)}.
 Definition consumer_keeps_early_parts : bool := {'true' if keeps_early else 'false'}.
 Definition txid_under_lock : bool := {'true' if txid_locked() else 'false'}.
+Definition consumer_state_under_lock : bool := {'true' if state_under_lock else 'false'}.
 '''
 print(json.dumps({'rel': 'Invocation/Gen_Consts.v', 'text': text, 'queue_cap': queue_cap, 'recent_cap': recent_cap,
-                  'direct_table': table, 'completing': completing, 'nonfinal': nonfinal, 'keeps_early': keeps_early}))
+                  'direct_table': table, 'completing': completing, 'nonfinal': nonfinal, 'keeps_early': keeps_early,
+                  'state_under_lock': state_under_lock, 'unlocked_accesses': unlocked_acc, 'probe_accesses': n_acc}))
